@@ -258,9 +258,44 @@ def all_element_programs():
     return out
 
 
+# programs that print something and then FAIL (unbounded recursion, a bad regular expression, popping the empty global array, an error
+# while a lazy list is being printed): what was printed before must be in the output record, the error in the error record
+FAIL_PRINTS = [("", ""), ("1,", "1\n"), ("3ɾ,", "⟨ 1 | 2 | 3 ⟩\n"), ("70(n,)", "".join("%d\n" % i for i in range(1, 71))), ("`ab`₴", "ab"),
+               ("1,2,", "1\n2\n")]
+FAIL_TAILS = [("λx;†", ""), ("3ƛx;,", "⟨ "), ("3ƛx;…", "⟨ "), ("`(`\\ae", ""), ("¼", ""), ("5ƛx;₴", "⟨ "), ("λλx;†;†", "")]
+
+
+def _failing_shard(cases):
+    part = explore.Partial()
+    for (ptext, pout), (ftext, fout) in cases:
+        program = ptext + ftext
+        part.count()
+        part.nontriv()
+        out, py_out, fd_out, exc, calls, texec = run_online(program, "", "", timeout=20.0)
+        case = {"program": program, "tokens": [ptext, ftext], "inputs": "", "flags": ""}
+        tags = {"kind": "failing program", "fails_with": ftext, "prints": ptext}
+        part.outcome(("failing", ftext, bool(out[2])))
+        if isinstance(exc, sandbox.CaseTimeout):
+            part.cap("backstop hit: " + program)
+            continue
+        if py_out or fd_out:
+            part.violation("online", case, "online mode wrote to the host's standard output", tags, "", (py_out or fd_out)[:80], size=len(program))
+        elif exc is not None and not isinstance(exc, SystemExit):
+            part.violation("online", case, "an exception escaped execute_vyxal in online mode", tags, "error record", type(exc).__name__, size=len(program))
+        elif not out[2]:
+            part.violation("online", case, "a failing program left the error record empty", tags, "a traceback in the error record",
+                           {"output_record": out[1][-60:], "error_record": out[2]}, size=len(program))
+        elif out[1] != pout + fout:
+            part.violation("online", case, "text printed before the failure is missing from / differs in the online output record", tags,
+                           (pout + fout)[-80:], out[1][-80:], size=len(program))
+    part.section("failing_programs", cases=len(cases))
+    return part.data()
+
+
 def run(tier, seed):
     rep = Report(PROP, tier, seed, "exploration")
     quick = tier == "quick"
+    explore.pmap(_failing_shard, explore.chunks([(a, b) for a in FAIL_PRINTS for b in FAIL_TAILS] + [(("", ""), ("3ƛx;", "⟨ "))], 16), rep, seed)
     explore.pmap(_ho_shard, explore.chunks(higher_order_programs(), 64), rep, seed)
     explore.pmap(_ho_shard, explore.chunks(all_element_programs(), 96), rep, seed)
     names = QUICK_TOKENS if quick else list(TOKENS)
@@ -280,7 +315,7 @@ def run(tier, seed):
                 "element , … ₴ ¨, ¨…, an error-raising element)%s x inputs %s x flags %s through the real "
                 "execute_vyxal(code, flags+'e', inputs, out, online_mode=True). Observers: sys.addaudithook exec events whose code "
                 "references a taint name, builtins.TAINT_n call recorder, fd-level capture of host stdout, out[1]/out[2]. "
-                "Plus: every function-taking element with a printing / evaluating lambda (both argument orders, 4 ways of forcing) and every key of the element table applied to 3 tainted strings in every argument position. Each (program, inputs, flags) is distinct." % (maxlen, len(names), "" if quick else " + all 4-token programs over 11 core symbols",
+                "Plus: 43 programs that print and then fail (6 printing prefixes x 7 ways of failing): printed text in the output record, traceback in the error record, nothing propagates but SystemExit. Plus: every function-taking element with a printing / evaluating lambda (both argument orders, 4 ways of forcing) and every key of the element table applied to 3 tainted strings in every argument position. Each (program, inputs, flags) is distinct." % (maxlen, len(names), "" if quick else " + all 4-token programs over 11 core symbols",
                                                                  inputs_names, flags))
     rep.sample({"program": render(("S1", "E", ",")), "inputs": INPUTS["expr"], "flags": ""})
     rep.sample({"program": render(("?", "†")), "inputs": INPUTS["list"], "flags": "j"})
